@@ -68,7 +68,21 @@ def apply_step(step: str, g: Any) -> tuple[Any, dict]:
         from pytato.codegen import preprocess
         from ptverif import cexec
         # (the harness' C target: a callee kernel must have the target of the program)
-        res = preprocess(T.deduplicate(g), cexec.make_target())
+        gd = T.deduplicate(g)
+        res = preprocess(gd, cexec.make_target())
+        # the schedule of the outputs: every requested name exactly once, an output after
+        # the outputs it is computed from
+        order = list(res.compute_order)
+        if sorted(order) != sorted(gd.keys()):
+            raise ValueError(f"compute_order {order} is not a permutation of the output "
+                             f"names {sorted(gd.keys())}")
+        deps = {k: T.DependencyMapper()(res.outputs[k].expr) for k in order}
+        for i, a in enumerate(order):
+            for b in order[i + 1:]:
+                eb = res.outputs[b].expr
+                if eb in deps[a] and eb is not res.outputs[a].expr:
+                    raise ValueError(f"compute_order {order}: output {a} is computed from "
+                                     f"output {b}, which is scheduled later")
         rename = {k: export.data_name(np.asarray(v)) for k, v in res.bound_arguments.items()}
         return res.outputs, rename
     raise ValueError(step)
@@ -281,6 +295,46 @@ def directed_dce() -> list[dict]:
     return out
 
 
+def directed_ieee() -> list[dict]:
+    """Programs whose value at NON-FINITE inputs differs from what exact algebra says:
+    products with a literal zero factor (0*inf is NaN), x - x, x / x, 0 / x, maximum with a
+    constant, a where() whose dead branch is non-finite.  The transformed graph is EXECUTED
+    (generated C code) on inputs with inf / NaN / signed zeros next to the original: the
+    specification's field GF(10007) has no such values (flag "ieee")."""
+    x = {"name": "x", "shape": [6], "dtype": "f8", "kind": "ph",
+         "data": [1.0, "inf", "-inf", "nan", -0.0, 2.0]}
+    y = {"name": "y", "shape": [6], "dtype": "f8", "kind": "ph",
+         "data": ["inf", 2.0, "nan", 1.0, 0.0, "-inf"]}
+    zero_i, zero_f = {"py": "int", "v": "0"}, {"py": "float", "v": "0.0"}
+    bodies = {
+        "0*b": [{"op": "mul", "a": zero_i, "b": 2}, {"op": "add", "a": 1, "b": 3}],
+        "b*0.0": [{"op": "mul", "a": 2, "b": zero_f}, {"op": "add", "a": 1, "b": 3}],
+        "x-x": [{"op": "sub", "a": 1, "b": 1}, {"op": "add", "a": 2, "b": 3}],
+        "x/x": [{"op": "truediv", "a": 1, "b": 1}, {"op": "mul", "a": 2, "b": 3}],
+        "0/x": [{"op": "truediv", "a": zero_f, "b": 1}, {"op": "add", "a": 2, "b": 3}],
+        "zeros_like*": [{"op": "zeros_like", "a": 1}, {"op": "mul", "a": 3, "b": 2},
+                        {"op": "add", "a": 4, "b": 1}],
+        "where-dead": [{"op": "gt", "a": 1, "b": zero_f},
+                       {"op": "where", "c": 3, "a": 1, "b": 2}],
+        "max0": [{"op": "maximum", "a": 1, "b": zero_f}, {"op": "mul", "a": 3, "b": zero_i}],
+    }
+    out = []
+    for name, calls in bodies.items():
+        for pipe in (["dce"], ["copy"], ["dedup"], ["mpms"], ["unify"], ["preprocess"],
+                     ["dce", "mpms", "dedup"]):
+            out.append({"id": f"ieee_{name}_{'-'.join(pipe)}", "inputs": [x, y], "calls": calls,
+                        "outs": {"out0": 2 + len(calls), "out1": 3}, "pipeline": pipe,
+                        "ieee": True})
+    return out
+
+
+def _ieee_outputs(g: Any, data: dict[str, np.ndarray]) -> dict[str, np.ndarray]:
+    from ptverif import cexec
+    bp = cexec.generate(g)
+    args = {k: v for k, v in data.items() if k in bp.program.default_entrypoint.arg_dict}
+    return {k: np.asarray(v) for k, v in bp(**args).items()}
+
+
 def fan_out(p: dict, rng: np.random.Generator) -> dict:
     """Adds readers: pairs of existing same-shaped intermediate values are
     added up and become extra outputs, so that intermediates have several
@@ -312,7 +366,7 @@ def fan_out(p: dict, rng: np.random.Generator) -> dict:
 def programs(tier: str) -> list[dict]:
     rng = np.random.default_rng(seed())
     n = 600 if tier == "quick" else 6000
-    progs = directed_views() + directed_mpms() + directed_dce()
+    progs = directed_views() + directed_mpms() + directed_dce() + directed_ieee()
     for k in range(n):
         p = progspace.random_program(rng, f"p{k}", int(rng.integers(2, 8)))
         p = enrich(p, rng)
@@ -506,6 +560,25 @@ def build(prog: dict) -> dict:
                 pass
             except Exception as ex:      # noqa: BLE001
                 res["problems"].append({"step": step, "clause": "raised_twice",
+                                        "what": f"{type(ex).__name__}: {ex}"[:300]})
+        if prog.get("ieee") and step != "preprocess":
+            try:
+                idata = {i["name"]: np.array([float(v) for v in i["data"]]).reshape(i["shape"])
+                         for i in prog["inputs"]}
+                ref = _ieee_outputs(g_raw, idata)
+                got = _ieee_outputs(new, idata)
+                from ptverif import runprog
+                for k, v in ref.items():
+                    msg = "missing" if k not in got else runprog.compare(
+                        got[k], v, v.dtype, 1.0)
+                    if msg:
+                        res["problems"].append({
+                            "step": step, "clause": "ieee_value",
+                            "what": f"output {k} of the transformed graph, executed on "
+                                    f"non-finite inputs, differs from the original: {msg}"})
+                res["ieee_executed"] = res.get("ieee_executed", 0) + 1
+            except Exception as ex:      # noqa: BLE001
+                res["problems"].append({"step": step, "clause": "ieee_execution_raised",
                                         "what": f"{type(ex).__name__}: {ex}"[:300]})
         res["steps"].append(step)
         cur, cur_rename = new, rename
